@@ -17,6 +17,7 @@
 
 import logging
 import sys
+from pathlib import Path
 from typing import IO, Optional, Type, cast
 
 from jinja2 import Environment, FileSystemLoader, Template
@@ -100,11 +101,14 @@ def add_header_to_file(
             )
             out.write("\n")
             path = _determine_license_suffix_path(path)
-            path.touch()
             comment_style = EmptyCommentStyle
 
-    with open(path, "r", encoding="utf-8", newline="") as fp:
-        text = fp.read()
+    # A .license file that does not exist yet is only created once its
+    # header could be built.
+    text = ""
+    if Path(path).exists():
+        with open(path, "r", encoding="utf-8", newline="") as fp:
+            text = fp.read()
 
     # A byte order mark must stay the very first thing in the file.
     bom = ""
